@@ -161,14 +161,16 @@ def bounded(repo, tier, seed):
     v3 = {}
     for r in res3:
         for case, bad, detail in r[2]:
-            key = f"{CIGAR}::monitor::C03::{bad[0]}"
+            fid = 'src/alignment/alignment_results.py::AlignmentResultRow.resolve' if bad[0].startswith('self_joined_record') else CIGAR
+            key = f"{fid}::monitor::C03::{bad[0]}"
             if key not in v3 or len(case['query']) < len(v3[key]['input']['aligner_case']['query']):
-                v3[key] = dict(key=key, blame=CIGAR, input=dict(aligner_case=case), observed=detail, required='C03 statement')
+                v3[key] = dict(key=key, blame=fid, input=dict(aligner_case=case), observed=detail, required='C03 statement')
     from bcheck.c15 import build_case
     r3 = result(sum(r[0] for r in res3), sum(r[1] for r in res3),
                 "HitEnum of the candidate rows of the real Aligner.align on generated label data with 2-6 seed peaks on neighbouring diagonals, both strands "
                 "(the C15 generators): replayed from the first pair it must reproduce the row's pairs; a row whose matching is invalid is skipped only if the "
-                "conflict monitor attributes it to a known conflict-resolution finding (K1/K2); non-trivial = >= 2 segments",
+                "conflict monitor attributes it to a known conflict-resolution finding (K1/K2); each valid row is also joined with itself (what mode 'best' does when a "
+                "second-pass row wins) and the joined record's HitEnum replayed; non-trivial = >= 2 segments",
                 [build_case(seeds[0])], list(v3.values())[:4], exhaustive=False, bounds=f"{na} generated cases")
     return merge([r1, r2, r3])
 
@@ -192,6 +194,17 @@ def aligner_case(case):
             return [], nseg, None                      # consequence of a known finding (reported under C15 / C01)
     text = row.cigarString
     bad = decode(text, pairs, 1 if orient == '+' else -1)
+    if not bad:
+        # ... and of the record the multi-pass coordinator makes of it in mode 'best' when this row is the better of a query's two passes: the row is then in
+        # both lists handed to AlignmentResults.resolve and is joined WITH ITSELF (AlignmentResultRow.resolve(row, row)) whenever its reference span is
+        # within maxDifference
+        joined = row.resolve(row)
+        if joined is not None and joined.alignedPairs:
+            jp = [(p.reference.siteId, p.query.siteId) for p in joined.alignedPairs]
+            jt = joined.cigarString
+            jbad = decode(jt, jp, 1 if orient == '+' else -1)
+            if jbad:
+                return ['self_joined_record::' + b for b in jbad], nseg, dict(hitenum=jt, pairs=jp[:60], joined_with_itself=True)
     return bad, nseg, dict(hitenum=text, pairs=pairs[:60])
 
 
